@@ -9,7 +9,7 @@ from ..frontend import AnalysisError, FunctionInfo, ancestors, norm, parent, wal
 from ..mutation import MutationAnalysis
 from ..paths import conds_on, paths, stmts_on
 from ..report import Ctx
-from .common import REPR_MUT, REPR_XO
+from .common import REPR_MUT, REPR_XO, operator_instances
 
 LEVEL_TEXT = (
     "Finite-model interpretation of the five representations' variation operators (found through the interfaces; "
@@ -60,7 +60,7 @@ def rule_r1_r2(ctx: Ctx) -> None:
     from .c06model import Script, genotype_class, run_operator
     prog = ctx.prog
     n1 = n2 = 0
-    for f in sorted(prog.implementations(REPR_XO, "crossover"), key=lambda x: x.fullname):
+    for f in sorted(operator_instances(prog, REPR_XO, "crossover"), key=lambda x: x.fullname):
         gcls = genotype_class(ctx, f)
         kind = _dna_kind(gcls) if gcls is not None else None
         ps = [p for p in f.params if p not in ("self", "kwargs") and p != f.params[1]][:2]
@@ -180,7 +180,7 @@ def rule_r3(ctx: Ctx) -> None:
     from .c06model import Script, genotype_class, run_operator
     prog = ctx.prog
     n = 0
-    for f in sorted(prog.implementations(REPR_MUT, "mutate"), key=lambda x: x.fullname):
+    for f in sorted(operator_instances(prog, REPR_MUT, "mutate"), key=lambda x: x.fullname):
         gcls = genotype_class(ctx, f)
         kind = _dna_kind(gcls) if gcls is not None else None
         ps = [p for p in f.params if p not in ("self", "kwargs") and p != f.params[1]][:1]
